@@ -210,6 +210,8 @@ pub struct SimRing {
     /// whenever the application enters the kernel (unless it is idle and not
     /// woken). Otherwise only the driver's explicit kernel-thread steps consume.
     pub sqpoll_auto: bool,
+    /// K14: the task a SINGLE_ISSUER ring is bound to (thread id).
+    pub submitter_tid: Option<i32>,
     pub posted: Vec<PostedCqe>,
     pub next_seq: u64,
     /// Requests cancelled by SYNC_CANCEL.
@@ -312,6 +314,18 @@ static SQPOLL_WAKE_TOKEN: Mutex<Option<u64>> = Mutex::new(None);
 /// Scheduler token to notify when an enter wakes the SQPOLL kernel thread.
 pub fn set_sqpoll_wake_token(t: Option<u64>) {
     *SQPOLL_WAKE_TOKEN.lock().unwrap_or_else(|e| e.into_inner()) = t;
+}
+
+/// The Ring of a case is built on the main thread and handed to the thread
+/// that uses it before its first use: bind a SINGLE_ISSUER ring to the calling
+/// thread (equivalent to building it there).
+pub fn bind_submitter_here(fd: i32) {
+    let mut s = sim();
+    if let Some(r) = s.ring(fd) {
+        if r.submitter_tid.is_some() {
+            r.submitter_tid = Some(unsafe { libc::gettid() });
+        }
+    }
 }
 
 pub fn sqpoll_wake_token() -> Option<u64> {
@@ -610,6 +624,7 @@ impl Sim {
             closed: false,
             sqpoll_idle: false,
             sqpoll_auto: false,
+            submitter_tid: if flags & abi::SETUP_SINGLE_ISSUER != 0 && flags & abi::SETUP_R_DISABLED == 0 { Some(unsafe { libc::gettid() }) } else { None },
             posted: Vec::new(),
             next_seq: 1,
             sync_cancels: 0,
